@@ -29,6 +29,8 @@ type Case struct {
 	NoRefCheck bool `json:"norefcheck,omitempty"`
 	// ReElect (L2/L3): the session raises its own election id after every n-th request
 	ReElect int `json:"reelect,omitempty"`
+	// LateVRF (L2/L3) > 0: VRF-B is created at runtime (AddNetworkInstance) before this step
+	LateVRF int `json:"latevrf,omitempty"`
 }
 
 func setup() {
